@@ -187,7 +187,11 @@ type c48Case struct {
 	Steps     []c48Step
 }
 
-func genC48(t *rapid.T) c48Case {
+func genC48(t *rapid.T) c48Case { return genAgent(t, false) }
+
+// genAgent draws an agent history; churn shifts the mix towards truncations over one or
+// two series, so that collected series come back, get duplicate refs and meet checkpoints.
+func genAgent(t *rapid.T, churn bool) c48Case {
 	c := c48Case{
 		Window:    rapid.SampledFrom([]int64{0, 0, 5, 40}).Draw(t, "window"),
 		STZero:    rapid.Bool().Draw(t, "stzero"),
@@ -197,6 +201,9 @@ func genC48(t *rapid.T) c48Case {
 		Compress:  rapid.SampledFrom([]string{"none", "none", "none", "snappy", "snappy", "zstd"}).Draw(t, "compress"),
 	}
 	ns := rapid.IntRange(1, 4).Draw(t, "nseries")
+	if churn && ns > 2 {
+		ns = 2
+	}
 	seen := map[string]bool{}
 	for len(c.Series) < ns {
 		l := gen.SmallLset(true, 2).Draw(t, "lset")
@@ -213,7 +220,11 @@ func genC48(t *rapid.T) c48Case {
 	nsteps := rapid.IntRange(4, 26).Draw(t, "nsteps")
 	for i := 0; i < nsteps; i++ {
 		var s c48Step
-		switch rapid.IntRange(0, 9).Draw(t, "op") {
+		op := rapid.IntRange(0, 9).Draw(t, "op")
+		if churn && op == 4 {
+			op = 5 // one more truncation in ten steps
+		}
+		switch op {
 		case 0, 1, 2, 3, 4:
 			s.Op = "tx"
 			s.V2 = rapid.Bool().Draw(t, "v2")
